@@ -496,7 +496,8 @@ func c20samples(c *core.Ctx) {
 	// variadic lists of 0..8 arguments: left-to-right evaluation is observable on floats
 	// (rounding and overflow depend on the grouping), and Min/Max must scan every position
 	{
-		pool := []float64{1e16, 1, -1e16, 0.1, 3, math.MaxFloat64, -math.MaxFloat64, 1e-9, 0.7, -2.5, 1e308, 2}
+		pool := []float64{1e16, 1, -1e16, 0.1, 3, math.MaxFloat64, -math.MaxFloat64, 1e-9, 0.7, -2.5, 1e308, 2,
+			0, math.Copysign(0, -1), math.Inf(1), math.Inf(-1), 1e300, -1e300, 0, 5e-324}
 		for k := 0; k < 40; k++ {
 			n := r.Range(0, 8)
 			args := make([]float64, n)
@@ -521,6 +522,9 @@ func c20samples(c *core.Ctx) {
 			var ws32, wp32 float32 = 0, 1
 			for i, a := range args {
 				f32[i] = float32(math.Mod(a, 1e6))
+				if math.IsInf(a, 0) {
+					f32[i] = float32(a) // no NaN arguments (the property excludes them); Inf is fine
+				}
 				ws32 += f32[i]
 				wp32 *= f32[i]
 			}
